@@ -179,7 +179,67 @@ pub fn pool(seed: u64) -> Vec<Call> {
     });
     let strat = prop_oneof![4 => enc, 4 => dec, 2 => stream, 1 => graph, 6 => fam, 3 => zip, 1 => big, 2 => dangling, 2 => tz];
     let mut r = runner(tag_seed(derive_seed(seed, "C18-pool", 0, 0), 0));
-    (0..POOL).map(|_| strat.new_tree(&mut r).expect("pool").current()).collect()
+    let mut calls: Vec<Call> = (0..POOL).map(|_| strat.new_tree(&mut r).expect("pool").current()).collect();
+    // the hand-written groups completely: every version as reader of every version's bytes
+    for names in [vec!["MemoV0", "MemoV1", "MemoV2"], vec!["Twin", "TwinOther"], vec!["TwinE", "TwinEOther"]] {
+        let g: Vec<_> = b.specials.iter().filter(|d| names.contains(&d.name.as_str())).cloned().collect();
+        if g.len() != names.len() || !crate::props::derived::group_ok(&g) {
+            continue;
+        }
+        for w in &g {
+            let tw = Ty::Adt(w.clone());
+            let v = vmodel::declgen::sample_val(&tw, ValCfg { max_len: 2, long: false, ..ValCfg::default() }, 0xC18);
+            let bytes = vmodel::refcodec::ref_encode(&tw, &v).map(|f| f.bytes).unwrap_or_default();
+            for rd in &g {
+                calls.push(Call::Dec { ty: Ty::Adt(rd.clone()), bytes: bytes.clone() });
+            }
+            calls.push(Call::Enc(TV { ty: tw, val: v, forms: vec![] }));
+        }
+    }
+    calls
+}
+
+/// what a call is about, for grouping calls that may share per-type or per-name state
+fn topic(c: &Call) -> String {
+    fn of_ty(t: &Ty) -> String {
+        let name: std::cell::RefCell<Option<String>> = std::cell::RefCell::new(None);
+        t.any(&|x| {
+            if let Ty::Adt(d) = x {
+                if name.borrow().is_none() {
+                    // H12V3 -> H12, T3V1 -> T3, S5V0 -> S5, MemoV1 -> Memo, TwinOther -> Twin
+                    let n = d.name.as_str();
+                    let versioned = n.starts_with("Memo") || (matches!(n.as_bytes()[0], b'H' | b'T' | b'S') && n[1..].starts_with(|ch: char| ch.is_ascii_digit()));
+                    let base = match (n.rfind('V'), versioned) {
+                        (Some(i), true) => &n[..i],
+                        _ => n.trim_end_matches("Other"),
+                    };
+                    *name.borrow_mut() = Some(base.to_string());
+                }
+            }
+            false
+        });
+        let found = name.into_inner();
+        found.unwrap_or_else(|| if t.any(&|x| matches!(x, Ty::Tz | Ty::DtTz)) { "time zones".into() } else if t.any(&|x| *x == Ty::Dedup) { "string table".into() } else { String::new() })
+    }
+    match c {
+        Call::Enc(tv) => of_ty(&tv.ty),
+        Call::Dec { ty, .. } => of_ty(ty),
+        Call::Stream(_) => "string table".into(),
+        Call::Graph(_) => "graphs".into(),
+        Call::Zip { .. } => "compressed blocks".into(),
+    }
+}
+
+/// indices of calls per topic (topics with at least two calls)
+pub fn pool_groups(p: &[Call]) -> Vec<Vec<usize>> {
+    let mut m: std::collections::BTreeMap<String, Vec<usize>> = std::collections::BTreeMap::new();
+    for (i, c) in p.iter().enumerate() {
+        let t = topic(c);
+        if !t.is_empty() {
+            m.entry(t).or_default().push(i);
+        }
+    }
+    m.into_values().filter(|v| v.len() >= 2).collect()
 }
 
 /// executes one call and digests its result into a string that is comparable across processes
@@ -417,13 +477,14 @@ pub fn run_c18(cx: &Cx) -> PropResult {
     let p = pool(cx.seed);
     // results of every call executed alone, as the first and only call of a fresh process
     let solo: Vec<String> = {
-        let slots: Mutex<Vec<Option<String>>> = Mutex::new(vec![None; POOL]);
+        let n_pool = p.len();
+        let slots: Mutex<Vec<Option<String>>> = Mutex::new(vec![None; n_pool]);
         let errs: Mutex<Vec<String>> = Mutex::new(vec![]);
         std::thread::scope(|s| {
             for w in 0..cx.shards {
                 let (slots, errs) = (&slots, &errs);
                 s.spawn(move || {
-                    for i in (w..POOL).step_by(cx.shards) {
+                    for i in (w..n_pool).step_by(cx.shards) {
                         match spawn_calls(cx.seed, &[i]) {
                             Ok(r) => slots.lock().unwrap()[i] = Some(r[0].clone()),
                             Err(e) => errs.lock().unwrap().push(e),
@@ -445,7 +506,29 @@ pub fn run_c18(cx: &Cx) -> PropResult {
     let solo = Arc::new(solo);
     let acc = parallel(cx, &|shard, acc| {
         // ---- histories
-        let strat = proptest::collection::vec(0usize..POOL, 1..=30);
+        // half of the histories are drawn from the whole pool, half stay with one topic (the calls about one family of
+        // declarations, the string table, time zones, compressed blocks ...) plus a few others
+        let groups = pool_groups(&p);
+        let n = p.len();
+        let anywhere = proptest::collection::vec(0usize..n, 1..=30).boxed();
+        let focused = (0..groups.len().max(1), proptest::collection::vec(any::<u16>(), 2..=12), proptest::collection::vec(0usize..n, 0..=3))
+            .prop_map({
+                let groups = groups.clone();
+                move |(g, picks, others)| {
+                    if groups.is_empty() {
+                        return others;
+                    }
+                    let members = &groups[g % groups.len()];
+                    let mut h: Vec<usize> = picks.iter().map(|s| members[vmodel::gen::pick(*s, members.len())]).collect();
+                    for (k, o) in others.into_iter().enumerate() {
+                        let at = (k * 5 + 1).min(h.len());
+                        h.insert(at, o);
+                    }
+                    h
+                }
+            })
+            .boxed();
+        let strat = prop_oneof![1 => anywhere, 1 => focused].prop_filter("non-empty", |h| !h.is_empty());
         let mut r = runner(tag_seed(derive_seed(cx.seed, cx.prop, shard as u64, 0), 0));
         for _ in 0..per_shard {
             let calls = strat.new_tree(&mut r).expect("history").current();
@@ -537,7 +620,7 @@ pub fn run_c18(cx: &Cx) -> PropResult {
         "the harness does not own the scheduler: interleavings of the lazy initialisation are sampled by the OS, not enumerated (DESIGN section 5.18)".into(),
         "fresh-process results are memoised per distinct call".into(),
     ];
-    r.extra = json!({"pool_size": POOL});
+    r.extra = json!({"pool_size": p.len(), "topics_with_two_or_more_calls": pool_groups(&p).len()});
     r
 }
 
